@@ -177,6 +177,44 @@ pub fn bounds() -> Vec<Ill> {
     );
     out.push(Ill { kind: "bound-violation", what: what.to_string(), modules: vec![("Main".into(), text)], target: "Main".into() });
   }
+  // ill-formed bound *declarations*, at every place a type parameter can be declared; nothing uses
+  // the declaration, so only the validation of the declaration itself can reject the program
+  let faults: [(&str, &str); 4] = [
+    ("too many type arguments", "Cmp<X, X>"),
+    ("too few type arguments", "Cmp"),
+    ("a type argument that violates the bound's own bound", "Ord<Plain>"),
+    ("an unresolved class", "Nowhere<X>"),
+  ];
+  let places: [(&str, &str, bool); 5] = [
+    ("function type parameter", "  function <X: BOUND> unusedF(x: X): int = 1\n", true),
+    ("method type parameter", "  method <X: BOUND> unusedM(x: X): int = 1\n", true),
+    ("class type parameter", "class K<X: BOUND>(val v: int) {}\n", false),
+    ("interface type parameter", "interface I2<X: BOUND> {}\n", false),
+    ("type parameter of an interface method", "interface I3 { method <X: BOUND> m(x: X): int }\n", false),
+  ];
+  for (fname, bound) in faults {
+    for (pname, decl, is_member) in places {
+      let decl = decl.replace("BOUND", bound);
+      let (member, toplevel) = if is_member { (decl.as_str(), "") } else { ("", decl.as_str()) };
+      let text = format!("{prelude}{toplevel}class Main {{\n{member}  function main(): unit = {{ }}\n}}\n");
+      out.push(Ill { kind: "bound-declaration", what: format!("bound of a {pname} with {fname}: `{bound}`"), modules: vec![("Main".into(), text)], target: "Main".into() });
+    }
+    // the same fault in a library module whose member is called from another module: the error
+    // belongs to the library, whatever the call site reports
+    for (pname, decl, call) in [
+      ("function type parameter", "  function <X: BOUND> f(x: X): int = 1\n", "L.f(Plain.init(1))"),
+      ("method type parameter", "  method <X: BOUND> m(x: X): int = 1\n", "L.init(0).m(Plain.init(1))"),
+    ] {
+      let lib = format!("{prelude}class L(val n: int) {{\n{}}}\n", decl.replace("BOUND", bound));
+      let main = format!("import {{ L, Plain }} from Lib\nclass Main {{\n  function main(): unit = {{\n    let _ = {call};\n  }}\n}}\n");
+      out.push(Ill {
+        kind: "bound-declaration",
+        what: format!("bound of a {pname} with {fname}: `{bound}`, declared in Lib and called from Main"),
+        modules: vec![("Lib".into(), lib), ("Main".into(), main)],
+        target: "Lib".into(),
+      });
+    }
+  }
   out
 }
 
